@@ -38,7 +38,7 @@ type c03 struct{}
 func init()            { core.Register(c03{}) }
 func (c03) ID() string { return "C03" }
 
-var c03Byz = []string{"valid-solved", "r=0", "s=0", "r=n", "s=n", "r+n", "s+n", "t=0", "pubx+p", "puby+p?", "offcurve", "infinity", "neg-pub", "e>=n", "x1>=n", "pubx+p/structured"}
+var c03Byz = []string{"valid-solved", "r=0", "s=0", "r=n", "s=n", "r+n", "s+n", "t=0", "pubx+p", "puby+p?", "offcurve", "infinity", "neg-pub", "e>=n", "x1>=n", "pubx+p/structured", "partial-sum-collision"}
 
 func (c03) Plan(tier string) core.Plan {
 	sys := len(c03Byz) * 4
@@ -174,6 +174,34 @@ func c03Byzantine(kind string, w *core.Rand) map[string]string {
 			ev := new(big.Int).Sub(r, R1.X)
 			ev.Mod(ev, n)
 			return map[string]string{"pubx": hx(ref.Pad32(PP.X)), "puby": hx(ref.Pad32(PP.Y)), "e": hx(ref.Pad32(ev)), "r": hx(ref.Pad32(r)), "s": hx(ref.Pad32(s))}
+		case "partial-sum-collision":
+			// a valid tuple in which [t]P plus the G-part of s built from its high bits lands on
+			// (plus or minus) a small multiple of G: intermediate sums of a windowed double-scalar
+			// multiplication then coincide with a table entry, the exceptional case of incomplete
+			// addition formulas. t = (m - s_hi) d^-1 with s_hi = s with its low j bits cleared.
+			j := uint(w.Range(1, 8))
+			low := new(big.Int).And(s, new(big.Int).Sub(new(big.Int).Lsh(big.NewInt(1), j), big.NewInt(1)))
+			sHi := new(big.Int).Sub(s, low)
+			m := new(big.Int).Set(low)
+			switch w.Intn(4) {
+			case 1:
+				m.Neg(low)
+			case 2:
+				m.SetInt64(int64(w.Intn(1 << j)))
+			case 3:
+				m.SetInt64(0)
+			}
+			tt := new(big.Int).Sub(m, sHi)
+			tt.Mul(tt, new(big.Int).ModInverse(d, n))
+			tt.Mod(tt, n)
+			if tt.Sign() == 0 {
+				continue
+			}
+			r = new(big.Int).Sub(tt, s)
+			r.Mod(r, n)
+			if r.Sign() == 0 {
+				continue
+			}
 		case "pubx+p/structured":
 			x, y := structuredXPoint(w)
 			P = ref.Pt{X: x, Y: y}
@@ -263,6 +291,48 @@ func c03Byzantine(kind string, w *core.Rand) map[string]string {
 	panic("c03Byzantine: could not construct " + kind)
 }
 
+// c03SolvedTuple builds a tuple the standard accepts under an arbitrary curve point P
+// (no private key needed): choose r, s, set e = r - x([s]G + [r+s]P).
+func c03SolvedTuple(P ref.Pt, w *core.Rand) map[string]string {
+	for {
+		r, s := randScalar(w), randScalar(w)
+		t := new(big.Int).Add(r, s)
+		t.Mod(t, ref.SM2N)
+		if t.Sign() == 0 {
+			continue
+		}
+		pt := ref.Add(ref.MulG(s), ref.Mul(t, P))
+		if pt.Inf {
+			continue
+		}
+		e := new(big.Int).Sub(r, pt.X)
+		e.Mod(e, ref.SM2N)
+		return map[string]string{"pubx": hx(ref.Pad32(P.X)), "puby": hx(ref.Pad32(P.Y)), "e": hx(ref.Pad32(e)), "r": hx(ref.Pad32(r)), "s": hx(ref.Pad32(s))}
+	}
+}
+
+// c03SameY returns, for a curve point A, another curve point with the same y and a
+// different x if one exists (the line y = const meets the cubic in up to three points).
+func c03SameY(A ref.Pt) (ref.Pt, bool) {
+	// x^2 + xA x + (xA^2 + a) = 0
+	disc := new(big.Int).Mul(A.X, A.X)
+	disc.Mul(disc, big.NewInt(3))
+	disc.Neg(disc)
+	disc.Sub(disc, new(big.Int).Mul(big.NewInt(4), ref.SM2A))
+	disc.Mod(disc, ref.SM2P)
+	sq, ok := sqrtP(disc)
+	if !ok {
+		return ref.Pt{}, false
+	}
+	x := new(big.Int).Sub(sq, A.X)
+	x.Mul(x, new(big.Int).ModInverse(big.NewInt(2), ref.SM2P))
+	x.Mod(x, ref.SM2P)
+	if x.Cmp(A.X) == 0 || !ref.OnCurve(x, A.Y) {
+		return ref.Pt{}, false
+	}
+	return ref.Pt{X: x, Y: new(big.Int).Set(A.Y)}, true
+}
+
 func c03Fields(entry string) []string {
 	switch entry {
 	case "VerifyZa":
@@ -319,6 +389,25 @@ func (c03) Generate(idx int, r *core.Rand, tier string) core.Script {
 			s.Muts = append(s.Muts, c03Mut(s.Entry, f))
 		}
 		return s
+	}
+	if s.Entry == "VerifyHashed" && w.Chance(1, 12) {
+		// two keys related by a symmetry of the curve (same y, different x), one after the
+		// other through the same verifier: whatever it remembers about the first key must not
+		// leak into the second
+		for tries := 0; tries < 20; tries++ {
+			A := ref.MulG(randScalar(w))
+			if B, ok := c03SameY(A); ok {
+				s.Before = append(s.Before, c03SolvedTuple(A, w))
+				s.Fields = c03SolvedTuple(B, w)
+				s.Byz = "same-y-key"
+				if w.Chance(1, 3) { // A's signature presented under B: must be rejected
+					for _, k := range []string{"e", "r", "s"} {
+						s.Fields[k] = s.Before[0][k]
+					}
+				}
+				return s
+			}
+		}
 	}
 	s.Fields = c03Authentic(s.Entry, w)
 	if w.Chance(1, 25) { // line noise: every field replaced by arbitrary bytes of arbitrary length
